@@ -217,3 +217,69 @@ Section Convert.
     nra.
   Qed.
 End Convert.
+
+(* every documented ratio is at most 2^60 *)
+Definition chk_upper a b :=
+  implb (convertible a b) (Qle_bool (spec_ratio (tag_unit a) (tag_unit b)) (inject_Z (2 ^ 60))).
+Lemma all_chk_upper : forall a b, chk_upper a b = true.
+Proof. apply sweep2. vm_compute. reflexivity. Qed.
+
+(* the same bound with premises on the observation only: any finite number of moderate magnitude *)
+Theorem scaled_error_moderate : forall a b, convertible a b = true ->
+  forall x : f64, Binary.is_finite 53 1024 x = true ->
+  bpow radix2 (-900) <= Rabs (R64 x) <= bpow radix2 900 ->
+  let rho := Q2R (spec_ratio (tag_unit a) (tag_unit b)) in
+  Rabs (R64 (f64_mul x (ratio_f64 a b)) - R64 x * rho) <= (bpow radix2 (-52) + bpow radix2 (-106)) * Rabs (R64 x * rho).
+Proof.
+  intros a b H x F [XL XU] rho.
+  destruct (r_props a b H) as (_ & _ & RP). fold rho in RP.
+  assert (RL : bpow radix2 (-60) <= rho).
+  { generalize (all_chk_normal a b). unfold chk_normal. rewrite H. cbn [implb]. intros S.
+    apply Qle_bool_iff in S. apply Qle_Rle in S. fold rho in S.
+    replace (bpow radix2 (-60)) with (Q2R (1 # 2 ^ 60)); [exact S|].
+    unfold Q2R. cbn [Qnum Qden]. change (bpow radix2 (-60)) with (/ IZR (Z.pow_pos 2 60)). rewrite Rmult_1_l. reflexivity. }
+  assert (RU : rho <= bpow radix2 60).
+  { generalize (all_chk_upper a b). unfold chk_upper. rewrite H. cbn [implb]. intros S.
+    apply Qle_bool_iff in S. apply Qle_Rle in S. fold rho in S.
+    replace (bpow radix2 60) with (Q2R (inject_Z (2 ^ 60))); [exact S|].
+    unfold Q2R, inject_Z. cbn [Qnum Qden]. change (bpow radix2 60) with (IZR (2 ^ 60)). field. }
+  (* the rounded constant stays within [2^-60, 2^60] *)
+  assert (RRL : bpow radix2 (-60) <= rnd64 rho).
+  { apply round_ge_generic; [apply FLT_exp_valid; reflexivity | apply valid_rnd_N | | exact RL].
+    apply generic_format_bpow. unfold FLT_exp. lia. }
+  assert (RRU : rnd64 rho <= bpow radix2 60).
+  { apply round_le_generic; [apply FLT_exp_valid; reflexivity | apply valid_rnd_N | | exact RU].
+    apply generic_format_bpow. unfold FLT_exp. lia. }
+  assert (P60 : 0 < bpow radix2 (-60)) by apply bpow_gt_0.
+  assert (PL : bpow radix2 (-960) <= Rabs (R64 x * rnd64 rho)).
+  { rewrite Rabs_mult, (Rabs_pos_eq (rnd64 rho)) by lra.
+    change (-960)%Z with (-900 + -60)%Z. rewrite bpow_plus.
+    apply Rmult_le_compat; try assumption; apply Rlt_le, bpow_gt_0. }
+  assert (PU : Rabs (R64 x * rnd64 rho) <= bpow radix2 960).
+  { rewrite Rabs_mult, (Rabs_pos_eq (rnd64 rho)) by lra.
+    change 960%Z with (900 + 60)%Z. rewrite bpow_plus.
+    apply Rmult_le_compat; try assumption; [apply Rabs_pos | lra]. }
+  apply scaled_error; try assumption.
+  - apply Rle_lt_trans with (bpow radix2 960); [|apply bpow_lt; lia].
+    apply abs_round_le_generic; [apply FLT_exp_valid; reflexivity | apply valid_rnd_N | | exact PU].
+    apply generic_format_bpow. unfold FLT_exp. lia.
+  - apply Rle_trans with (bpow radix2 (-960)); [apply bpow_le; lia | exact PL].
+Qed.
+
+(* discharging the premises for a concrete float through its rational value *)
+Lemma f64_moderate_by_Q : forall (x : f64) (q : Q), f64_to_Q x = Some q ->
+  Qle_bool (1 # 2 ^ 900) (Qabs.Qabs q) = true -> Qle_bool (Qabs.Qabs q) (inject_Z (2 ^ 900)) = true ->
+  Binary.is_finite 53 1024 x = true /\ bpow radix2 (-900) <= Rabs (R64 x) <= bpow radix2 900.
+Proof.
+  intros x q HQ L U. destruct (f64_to_Q_correct x q HQ) as [V F]. split; [exact F|].
+  apply Qle_bool_iff in L. apply Qle_bool_iff in U. apply Qle_Rle in L. apply Qle_Rle in U.
+  assert (A : Q2R (Qabs.Qabs q) = Rabs (R64 x)).
+  { rewrite <- V. unfold Qabs.Qabs. destruct q as [n d]. unfold Q2R. cbn [Qnum Qden].
+    rewrite abs_IZR. unfold Rdiv. rewrite Rabs_mult. f_equal. symmetry. apply Rabs_pos_eq.
+    apply Rlt_le, Rinv_0_lt_compat. apply IZR_lt. reflexivity. }
+  rewrite A in L, U. split.
+  - replace (bpow radix2 (-900)) with (Q2R (1 # 2 ^ 900)); [exact L|].
+    unfold Q2R. cbn [Qnum Qden]. change (bpow radix2 (-900)) with (/ IZR (Z.pow_pos 2 900)). rewrite Rmult_1_l. reflexivity.
+  - replace (bpow radix2 900) with (Q2R (inject_Z (2 ^ 900))); [exact U|].
+    unfold Q2R, inject_Z. cbn [Qnum Qden]. change (bpow radix2 900) with (IZR (2 ^ 900)). field.
+Qed.
